@@ -33,6 +33,36 @@ def lake_build(timeout=3000):
     return p.returncode == 0, time.time() - t0, p.stdout
 
 
+import contextlib
+
+
+@contextlib.contextmanager
+def build_lock():
+    """The lock `lake_build` takes: held by anything that reads the compiled .olean files for a while."""
+    import fcntl
+    with open(os.path.join(LEAN_DIR, '.build.lock'), 'w') as lock:
+        fcntl.flock(lock, fcntl.LOCK_EX)
+        try:
+            yield
+        finally:
+            fcntl.flock(lock, fcntl.LOCK_UN)
+
+
+def olean_digest():
+    """Identity of the compiled library: names, sizes and contents of every .olean of the project."""
+    import hashlib
+    root = os.path.join(LEAN_DIR, '.lake', 'build', 'lib', 'lean')
+    h = hashlib.sha256()
+    for d, _, files in sorted(os.walk(root)):
+        for fn in sorted(files):
+            if fn.endswith('.olean'):
+                path = os.path.join(d, fn)
+                h.update(os.path.relpath(path, root).encode())
+                with open(path, 'rb') as f:
+                    h.update(hashlib.sha256(f.read()).digest())
+    return h.hexdigest()
+
+
 def _run_chunk(args):
     lines, idx, workdir = args
     inp = os.path.join(workdir, f'req{idx}.jsonl')
